@@ -276,7 +276,7 @@ func replayScheduleMode(c *core.Case, in *behaviourIn, eager bool) ([]core.Viola
 			for _, k := range in.Skip {
 				pats = append(pats, w.ModPath(k))
 			}
-			cl.SetGONOSUMDB(strings.Join(pats, ","))
+			cl.SetGONOSUMDB(malformedPattern + "," + strings.Join(pats, ","))
 		}
 		registerHookClient(cl, n)
 		clients[cn] = cl
